@@ -590,6 +590,24 @@ def scenarios(pid, tier, rng):
     return scs
 
 
+def fam_amorph_long(rng, pid, count, twins=("batch",)):
+    """one-series movement functions wrapped as indicators with a look-back LONGER than the history in front
+    of the early candles, on lists that are pre-loaded or grow in chunks (round 12): a window that runs below
+    index 0 must stop there, not wrap to the newest candles"""
+    out = []
+    for t in range(count):
+        fn = MOVE1[t % len(MOVE1)]
+        cfg = IndCfg("Amorph", fn=fn, inp=rng.choice(["close", "high", "low", "volume"]), p=rng.choice([6, 8, 12, 20]))
+        n = rng.randint(5, 14)
+        sc = ind_scenario(rng, f"{pid}/amorphlong/{fn}/{t}", "amorph", cfg, n, rng.choice(["walk", "mixed", "outside"]),
+                          twins, extra=rng.randint(1, 4) if "longer" in twins else 0,
+                          pre_choices=(0, 2, 3, n // 2, n), max_chunk=5)
+        sc["clause_props"] = dict(sc.get("clause_props", {}), exc=[pid])
+        sc["names_fixed"] = True
+        out.append(sc)
+    return out
+
+
 # kinds whose reading is built from window extremes of high and low
 OUTSIDE_KINDS = ["DONCHIAN", "HL", "HLA", "DONCHIAN", "KC", "Supertrend", "TR", "ATR"]
 
@@ -628,7 +646,8 @@ def _scenarios(pid, tier, rng):
         return (fam_kinds(rng, pid, ALL_KINDS, k(200, 1200), tf_share=0.6)
                 + fam_chain(rng, pid, k(40, 200)) + fam_amorph(rng, pid, k(64, 320))
                 + fam_hexital(rng, pid, k(50, 300), twins=("batch",))
-                + fam_aware(rng, pid, k(24, 150), twins=("batch",)))
+                + fam_aware(rng, pid, k(24, 150), twins=("batch",))
+                + fam_amorph_long(rng, pid, k(32, 160)))
     if pid == "C02":
         return (fam_kinds(rng, pid, ALL_KINDS, k(260, 1500), twins=("longer",), tf_share=0.5)
                 + fam_amorph(rng, pid, k(40, 240), twins=("longer",))
@@ -645,7 +664,8 @@ def _scenarios(pid, tier, rng):
                    # (what the definition gives for the stream so far is final by construction: a closed candle
                    #  that is not the definition's is one that still has to change)
                    for sc in fam_manager(rng, pid, k(120, 500), fills=(True,), lifes=(2, 2, 3, 4, 6), twins=(), tag="f",
-                                         collapse_ops=False)])
+                                         collapse_ops=False)]
+                + fam_amorph_long(rng, pid, k(40, 200), twins=("longer",)))
     if pid == "C03":
         return (fam_manager(rng, pid, k(350, 1700)) + fam_disorder(rng, pid, k(40, 200))
                 + fam_aware(rng, pid, k(20, 150))
